@@ -60,12 +60,13 @@ type State struct {
 	facts  *factNode
 	guards *factNode // branch conditions that hold on every path to this point
 	known  *knownNode
+	writes *factNode // offsets of packet stores on (some) path to here; hints for counterexample search
 	mapVer map[string]int
 	found  map[string]smt.Term // ghost: a lookup in this map returned non-NULL on this path
 }
 
 func (s *State) clone() *State {
-	n := &State{pc: s.pc, pktLen: s.pktLen, facts: s.facts, guards: s.guards, known: s.known,
+	n := &State{pc: s.pc, pktLen: s.pktLen, facts: s.facts, guards: s.guards, known: s.known, writes: s.writes,
 		regs: make(map[string]*Val, len(s.regs)+8), mem: make(map[int]*RegMem, len(s.mem)+2),
 		mapVer: make(map[string]int, len(s.mapVer)), found: make(map[string]smt.Term, len(s.found))}
 	for k, v := range s.regs {
@@ -91,6 +92,7 @@ type edgeSnap struct {
 	pktLen smt.Term
 	facts  *factNode
 	known  *knownNode
+	writes *factNode
 	phis   map[string]*Val
 	found  map[string]smt.Term
 	multi  bool
@@ -123,26 +125,29 @@ func unsupported(format string, args ...interface{}) error {
 }
 
 type executor struct {
-	mod       *Module
-	ctx       *smt.Ctx
-	tm        *terms
-	opts      Options
-	res       *Result
-	fn        *Function
-	regions   []*Region
-	globalReg map[string]*Region
-	mergeMemo map[mergeKey]*Val
-	stack     []string
-	steps     int
-	siteOrd   map[*Instr]int
-	ids       map[string]int
-	mapVerMax map[string]int
-	nextFresh int
-	pktLen0   smt.Term
-	ctxStruct string
-	probes    *probeSet
-	notes     map[string]bool
-	nullPtr0  *Val
+	mod           *Module
+	ctx           *smt.Ctx
+	tm            *terms
+	opts          Options
+	res           *Result
+	fn            *Function
+	regions       []*Region
+	globalReg     map[string]*Region
+	mergeMemo     map[mergeKey]*Val
+	stack         []string
+	steps         int
+	siteOrd       map[*Instr]int
+	ids           map[string]int
+	mapVerMax     map[string]int
+	nextFresh     int
+	pktLen0       smt.Term
+	ctxStruct     string
+	probes        *probeSet
+	notes         map[string]bool
+	nullPtr0      *Val
+	pktStores     []storeEvt
+	noStoreEvents bool
+	pktOpaque     bool // a helper modified packet bytes (no store event describes it)
 }
 
 func (e *executor) note(format string, args ...interface{}) {
@@ -517,6 +522,13 @@ func (e *executor) storeMem(st *State, p *Ptr, v *Val) error {
 		if r.Kind == rkMapVal {
 			e.bumpMap(st, r.Map)
 		}
+		if r.Kind == rkPacket && !e.noStoreEvents {
+			pc := st.pc
+			if len(cands) > 1 {
+				pc = smt.And(pc, smt.Eq(p.Reg, regLit(id)))
+			}
+			e.recordPktStore(st, pc, p.Off, v.W/8, v)
+		}
 		old := st.regMem(e, id)
 		e.storeRegion(st, id, p.Off, v)
 		if len(cands) > 1 {
@@ -652,6 +664,9 @@ func (e *executor) mergeStates(sts []*State) *State {
 		out.facts = commonFacts(s.facts, out.facts)
 		out.guards = commonFacts(s.guards, out.guards)
 		out.known = commonKnown(s.known, out.known)
+		if s.writes != nil && (out.writes == nil || s.writes.depth > out.writes.depth) {
+			out.writes = s.writes
+		}
 		var ms []string
 		for m := range s.mapVer {
 			ms = append(ms, m)
@@ -899,7 +914,7 @@ func (e *executor) edge(fr *frame, st *State, from *Block, toName string, cond s
 	} else {
 		fr.edgePC[key] = es.pc
 		if fr.top {
-			sn := &edgeSnap{pc: es.pc, pkt: es.regMem(e, ridPacket), pktLen: es.pktLen, facts: es.facts, known: es.known, phis: map[string]*Val{}, found: map[string]smt.Term{}}
+			sn := &edgeSnap{pc: es.pc, pkt: es.regMem(e, ridPacket), pktLen: es.pktLen, facts: es.facts, known: es.known, writes: es.writes, phis: map[string]*Val{}, found: map[string]smt.Term{}}
 			for _, a := range as {
 				sn.phis[a.name] = a.v
 			}
@@ -1405,4 +1420,21 @@ func constTree(v *Val) bool {
 	}
 	n := 32
 	return constLeaves(v, &n)
+}
+
+// storeEvt is one store to the packet region (in executor order).
+type storeEvt struct {
+	pc  smt.Term
+	off smt.Term
+	n   int
+	val *Val // nil for range events (memset/memcpy) whose bytes are not tracked here
+}
+
+func (e *executor) recordPktStore(st *State, pc, off smt.Term, n int, v *Val) {
+	e.pktStores = append(e.pktStores, storeEvt{pc: pc, off: off, n: n, val: v})
+	d := 0
+	if st.writes != nil {
+		d = st.writes.depth + 1
+	}
+	st.writes = &factNode{t: smt.Term{S: strconv.Itoa(len(e.pktStores) - 1)}, next: st.writes, depth: d}
 }
